@@ -29,7 +29,7 @@ ASSUMPTIONS = ['from depth 2 on an event must involve the newest object or be an
 
 
 def BOUNDS(tier):
-    return {'depth': 2 if tier == 'quick' else 3, 'initial_pools': explore.NPOOLS, 'pool_cap': explore.MAXPOOL,
+    return {'depth': 2 if tier == 'quick' else 3, 'initial_pools': explore.NPOOLS, 'pool_5': 'uniform order-4 structure (one core shape), depth 2 in both tiers', 'pool_cap': explore.MAXPOOL,
             'events': sorted(explore.EVBYNAME), 'slow_events_included': 'depth 1 always; deeper levels in the thorough tier', 'merged_depth': None if tier == 'quick' else '4 (pool 2: order-1 objects, merging from depth 2 per shard)'}
 
 
@@ -38,7 +38,7 @@ def cases(tier, seed):
     for pid in range(explore.NPOOLS):
         n = explore.root_event_count(pid)
         for i in range(n):
-            yield {'pid': pid, 'first': i, 'depth': 2 if tier == 'quick' else 3, 'slow': False}
+            yield {'pid': pid, 'first': i, 'depth': 2 if (tier == 'quick' or pid == 5) else 3, 'slow': False}     # pool 5 (order 4, uniform): depth 2 in both tiers
     if tier == 'thorough':
         # depth 4 with merging of equal canonical states (per shard), on the two smallest pools
         for pid in (2,):
